@@ -1137,6 +1137,10 @@ package stats
 //@   model xreal
 //@   requires wfSample(s)
 //@   ensures [empty] len(s.Xs) == 0 ==> isnan(result)
+//@   ensures [low]   len(s.Xs) > 0 && q <= 0 && isnil(s.Weights) ==> (forall k in 0..len(s.Xs) :: result <= s.Xs[k]) && (exists k in 0..len(s.Xs) :: result == s.Xs[k])
+//@   ensures [high]  len(s.Xs) > 0 && q >= 1 && isnil(s.Weights) ==> (forall k in 0..len(s.Xs) :: s.Xs[k] <= result) && (exists k in 0..len(s.Xs) :: result == s.Xs[k])
+//@   ensures [low-weighted]  !isnil(s.Weights) && q <= 0 ==> (forall k in 0..len(s.Xs) :: s.Weights[k] != 0 ==> result <= s.Xs[k])
+//@   ensures [high-weighted] !isnil(s.Weights) && q >= 1 ==> (forall k in 0..len(s.Xs) :: s.Weights[k] != 0 ==> s.Xs[k] <= result)
 //@   loop 1 (i) invariant i >= 0
 //@   assigns nothing
 //@ func Sample.Copy@xreal
